@@ -1,7 +1,263 @@
-"""C13 - repartitioning preserves rows and order and honours the requested layout."""
+"""C13 - repartitioning preserves rows and order and honours the requested layout (DESIGN 5 C13).
+P: count-based kernels (vf/contracts/repartition.py); S: exhaustive check of the divisions planner
+RepartitionDivisions._layer through the abstract graph interpreter; R: end-to-end run-time contracts."""
+from __future__ import annotations
+
+import itertools
+import warnings
+
+import numpy as np
+import pandas as pd
+
 from vf.contracts import repartition
 from vf.props._p import run_specs
+from vf.rt.pool import bump, run_cases, viol
+
+S_RULE = "all pairs (old divisions a, new divisions b) of non-decreasing vectors (lengths 2..4) over an ordered domain of 6 values x force on/off; the planner only compares division values, so this realises every order type of that many elements; rows at every domain value, duplicated; distinct by (a, b, force)"
+
+
+def vectors(dom, max_len):
+    out = []
+    for ln in range(2, max_len + 1):
+        out.extend(itertools.combinations_with_replacement(range(dom), ln))
+    return out
+
+
+def place_rows(a):
+    """Input partitions for old divisions a: two rows per domain value in [a[0], a[-1]]."""
+    n = len(a) - 1
+    parts = [[] for _ in range(n)]
+    for x in range(a[0], a[-1] + 1):
+        i = max(k for k in range(len(a)) if a[k] <= x)
+        i = min(i, n - 1)
+        # repeated boundaries: the value sits in the last partition that starts at it
+        for dup in range(2):
+            parts[i].append((i, len(parts[i]), x, 0))
+    return [tuple(p) for p in parts]
+
+
+def must_raise(a, b, force):
+    if len(b) < 2:
+        return True
+    if force:
+        return a[0] < b[0] or a[-1] > b[-1]
+    return a[0] != b[0] or a[-1] != b[-1]
+
+
+def s_case(case, common, out):
+    from dask_expr._repartition import RepartitionDivisions
+
+    from vf.rt import graphsem as G
+    from vf.rt.stub import stub_frame
+
+    a_list, bs = case
+    sem = G.default_semantics()
+    for a in a_list:
+        # the collection API only builds known, sorted old divisions; repeated values are allowed
+        fr = stub_frame(divisions=a, tag="r")
+        inputs = {(fr._name, i): p for i, p in enumerate(place_rows(a))}
+        allrows = [r for p in place_rows(a) for r in p]
+        for b in bs:
+            for force in (False, True):
+                sig = f"a={a}|b={b}|force={force}"
+                replay = {"kind": "call", "module": "vf.props.C13", "func": "replay_s", "args": {"a": list(a), "b": list(b), "force": force}}
+                expect_error = must_raise(a, b, force)
+                bump(out, "C13.S.planner:rows-order-layout", sig if not expect_error else None, tier="S", rule=S_RULE)
+                try:
+                    rd = RepartitionDivisions(fr, b, force)
+                    layer = rd._layer()
+                except ValueError as ex:
+                    if not expect_error:
+                        viol(out, "C13.S.planner:rejects-a-satisfiable-request", sig, f"ValueError: {str(ex)[:120]}", replay)
+                    continue
+                except Exception as ex:
+                    viol(out, "C13.S.planner:raises", sig, f"{type(ex).__name__}: {str(ex)[:160]}", replay)
+                    continue
+                if expect_error:
+                    viol(out, "C13.S.planner:accepts-an-unsatisfiable-request", sig, "no error although the old range is not covered / end points differ", replay)
+                    continue
+                nout = len(b) - 1
+                keys = [(rd._name, j) for j in range(nout)]
+                missing = [k for k in keys if k not in layer]
+                if missing:
+                    viol(out, "C13.S.planner:K1-output-undefined", sig, f"{missing[0]!r} not defined", replay)
+                    continue
+                try:
+                    outs = G.run_layer(layer, inputs, keys, sem)
+                except Exception as ex:
+                    viol(out, "C13.S.planner:not-executable", sig, f"{type(ex).__name__}: {str(ex)[:160]}", replay)
+                    continue
+                # rows and order preserved over the whole collection
+                flat = [r for p in outs for r in p]
+                if flat != allrows:
+                    lost = len(allrows) - len(flat)
+                    viol(out, "C13.S.planner:rows-or-order-changed", sig, f"{len(allrows)} rows in, {len(flat)} out ({'lost' if lost > 0 else 'gained'} {abs(lost)}); first difference at {next((i for i, (x, y) in enumerate(zip(flat, allrows)) if x != y), min(len(flat), len(allrows)))}", replay)
+                    continue
+                # layout: partition j holds idx in [b[j], b[j+1]) ; the last one includes its upper bound
+                for j, p in enumerate(outs):
+                    last = j == nout - 1
+                    bad = [r for r in p if not (b[j] <= r[2] and (r[2] <= b[j + 1] if last else r[2] < b[j + 1]))]
+                    if bad:
+                        # repeated target boundaries: a value equal to a repeated boundary may sit in either of the
+                        # partitions that start at it; it must not sit below its lower bound or above its upper bound
+                        hard = [r for r in bad if r[2] < b[j] or r[2] > b[j + 1] or (r[2] == b[j + 1] and not last and b.count(b[j + 1]) == 1)]
+                        if hard:
+                            viol(out, "C13.S.planner:divisions-not-respected", sig, f"output {j} [{b[j]}, {b[j+1]}{']' if last else ')'} holds index value {hard[0][2]}", replay)
+                            break
+    if len(out["samples"]) < 2:
+        out["samples"].append({"a": list(a_list[0]), "b": [list(x) for x in bs[:3]]})
+
+
+def replay_s(a, b, force):
+    out = {"counts": {}, "violations": [], "samples": [], "errors": [], "notes": {}}
+    s_case(([tuple(a)], [tuple(b)]), {}, out)
+    vs = [v for v in out["violations"] if f"force={force}" in v["signature"]]
+    for v in vs:
+        print(v["contract"], "|", v["signature"], "|", v["detail"][:300])
+    return bool(vs)
+
+
+# ---------------------------------------------------------------------------------------------
+# R tier: end-to-end
+# ---------------------------------------------------------------------------------------------
+def _index(kind, n):
+    i = np.arange(n)
+    if kind == "int":
+        return pd.Index(i, name="ix")
+    if kind == "dupint":
+        return pd.Index(np.sort((i * 3) % 7), name="ix")
+    if kind == "dupmax":
+        return pd.Index(np.minimum(i, n - 5), name="ix")  # the largest value heavily duplicated
+    if kind == "float":
+        return pd.Index(i * 0.5 - 2, name="ix")
+    if kind == "str":
+        return pd.Index([f"k{x:03d}" for x in i], name="ix")
+    if kind == "dt":
+        return pd.Index(pd.Timestamp("2024-01-01") + pd.to_timedelta(i * 6, unit="h"), name="ix")
+    raise KeyError(kind)
+
+
+def r_case(case, common, out):
+    import dask_expr as dx
+
+    kind, n, nin, req = case
+    pdf = pd.DataFrame({"v": np.arange(n), "s": [f"r{x}" for x in range(n)], "w": np.arange(n) * 1.5}, index=_index(kind, n))
+    sig = f"index={kind}|n={n}|n_in={nin}|request={req}"
+    replay = {"kind": "call", "module": "vf.props.C13", "func": "replay_r", "args": {"case": list(case)}}
+    with warnings.catch_warnings():
+        warnings.simplefilter("ignore")
+        try:
+            if isinstance(nin, (list, tuple)):
+                bounds = np.cumsum([0] + list(nin))
+                pieces = [pdf.iloc[a:b] for a, b in zip(bounds, bounds[1:])]
+                divs = tuple(p.index[0] for p in pieces) + (pieces[-1].index[-1],) if kind in ("int", "float", "str", "dt") else None
+                df = dx.from_map(lambda p: p, pieces, meta=pdf.iloc[:0], divisions=divs, enforce_metadata=False)
+            else:
+                df = dx.from_pandas(pdf, npartitions=nin, sort=True)
+            old = df.divisions
+            what, arg = req
+            if old[0] is None and what in ("divisions", "force"):
+                return  # a divisions request needs known divisions (its rejection is part of the P contract)
+            if what == "npartitions":
+                q = df.repartition(npartitions=arg)
+            elif what == "divisions":
+                d = list(old)
+                if arg == "coarser":
+                    nd = [d[0]] + d[2:-1:2] + [d[-1]]
+                elif arg == "finer":
+                    mid = [pdf.index[len(pdf) // 3], pdf.index[2 * len(pdf) // 3]]
+                    nd = sorted(set(d) | set(mid))
+                elif arg == "shifted":
+                    nd = [d[0]] + [pdf.index[min(len(pdf) - 1, k)] for k in range(3, len(pdf) - 1, max(2, len(pdf) // 4))] + [d[-1]]
+                    nd = sorted(set(nd))
+                elif arg == "repeat-last":
+                    nd = [d[0], pdf.index[len(pdf) // 2], d[-1], d[-1]]
+                    nd = [nd[0]] + sorted(set(nd[1:-1])) + [nd[-1]] if nd[1] != nd[2] else nd
+                    nd = [d[0], pdf.index[len(pdf) // 2], d[-1], d[-1]]
+                elif arg == "same":
+                    nd = d
+                q = df.repartition(divisions=nd)
+            elif what == "force":
+                d = list(old)
+                lo = d[0] - 2 if kind in ("int", "dupint", "dupmax", "float") else d[0]
+                hi = d[-1] + 3 if kind in ("int", "dupint", "dupmax", "float") else d[-1]
+                q = df.repartition(divisions=[lo, d[len(d) // 2], hi], force=True)
+            elif what == "partition_size":
+                q = df.repartition(partition_size=arg)
+            elif what == "freq":
+                q = df.repartition(freq=arg)
+            parts = [p.compute() for p in q.to_delayed()]
+            whole = pd.concat(parts) if parts else pdf.iloc[:0]
+        except (ValueError, NotImplementedError, TypeError) as ex:
+            # an explicit rejection is allowed only for requests the input cannot satisfy
+            satisfiable = not (what == "divisions" and kind in ("dupint", "dupmax") and arg in ("finer", "shifted"))
+            bump(out, "C13.R.repartition:rows-order-divisions", None, rule="index dtype x input layout x request")
+            if what in ("npartitions", "partition_size") or (what == "divisions" and arg in ("same", "coarser")):
+                viol(out, "C13.R.repartition:rejects-a-satisfiable-request", sig, f"{type(ex).__name__}: {str(ex)[:160]}", replay)
+            else:
+                out["notes"][f"rejected: {sig}"] = f"{type(ex).__name__}: {str(ex)[:80]}"
+            return
+        except Exception as ex:
+            viol(out, "C13.R.repartition:raises", sig, f"{type(ex).__name__}: {str(ex)[:200]}", replay)
+            return
+    bump(out, "C13.R.repartition:rows-order-divisions", sig, rule="index dtype x input layout x request (npartitions up/down, divisions coarser/finer/shifted/repeated last, force, partition_size, freq)")
+    if whole.v.tolist() != pdf.v.tolist():
+        a, b = whole.v.tolist(), pdf.v.tolist()
+        viol(out, "C13.R.repartition:rows-or-order-changed", sig, f"{len(b)} rows in, {len(a)} out; multiset equal: {sorted(a) == sorted(b)}; first 8 out: {a[:8]}", replay)
+        return
+    if len(parts) != q.npartitions:
+        out["notes"][f"computed partition count differs from npartitions (C06's business): {sig}"] = f"{len(parts)} vs {q.npartitions}"
+    d = q.divisions
+    if what in ("divisions", "force") and d[0] is not None:
+        for j, p in enumerate(parts):
+            if len(p) == 0:
+                continue
+            last = j == len(parts) - 1
+            lo, hi = p.index.min(), p.index.max()
+            if lo < d[j] or hi > d[j + 1] or (hi == d[j + 1] and not last and list(d).count(d[j + 1]) == 1):
+                viol(out, "C13.R.repartition:divisions-not-respected", sig, f"partition {j} holds [{lo}, {hi}] under divisions {d[j]}..{d[j+1]}", replay)
+                break
+    if what == "npartitions" and q.npartitions != arg and not (arg > len(pdf)):
+        out["notes"][f"npartitions request not met exactly: {sig}"] = f"{q.npartitions} != {arg}"
+
+
+def replay_r(case):
+    from vf.rt.pool import _init
+
+    _init()
+    out = {"counts": {}, "violations": [], "samples": [], "errors": [], "notes": {}}
+    c = list(case)
+    c[2] = tuple(c[2]) if isinstance(c[2], list) else c[2]
+    c[3] = tuple(c[3])
+    r_case(tuple(c), {}, out)
+    for v in out["violations"]:
+        print(v["contract"], "|", v["signature"], "|", v["detail"][:300])
+    return bool(out["violations"])
 
 
 def run(run):
+    from vf.rt import graphsem as G
+
     run_specs(run, repartition.SPECS, "C13")
+    n, bad = G.check_assumed_contracts()
+    run.count("C13.assumed-contracts:cross-checked-against-real-functions", n, "assumed", tier="R", rule="assumed contracts of boundary_slice / split_evenly / concat evaluated against the real dask functions")
+    for b in bad:
+        run.errors.append(f"assumed contract disagrees with the real function: {b!r}"[:300])
+    dom, mlen = (6, 4) if run.tier == "quick" else (7, 5)
+    vs = vectors(dom, mlen)
+    a_vs = [v for v in vs if True]
+    chunks = [a_vs[i : i + 4] for i in range(0, len(a_vs), 4)]
+    bsel = vs if run.tier == "thorough" else vs
+    run_cases(run, "vf.props.C13", "s_case", [(c, bsel) for c in chunks], {}, chunk=1)
+    rc = []
+    for kind in ("int", "dupint", "dupmax", "float", "str", "dt"):
+        for n, nin in ((24, 4), (24, 1), (25, 7), (24, (10, 4, 10)), (30, (12, 3, 15))):
+            for req in (("npartitions", 2), ("npartitions", 1), ("npartitions", 9), ("npartitions", 4), ("divisions", "coarser"), ("divisions", "finer"), ("divisions", "shifted"), ("divisions", "repeat-last"), ("divisions", "same"), ("force", None), ("partition_size", "0.3kB"), ("partition_size", "1kB")):
+                rc.append((kind, n, nin, req))
+            if kind == "dt":
+                rc.append((kind, n, nin, ("freq", "1D")))
+                rc.append((kind, n, nin, ("freq", "2D")))
+    run_cases(run, "vf.props.C13", "r_case", rc, {}, chunk=4)
+    run.assume("A2: n_in / n_out and int(i * ratio) in RepartitionToFewer are evaluated over the reals in the proof; the same expressions are executed concretely by the cross-check for n_in <= 40 and five large pairs")
+    run.assume("L1 (boundaries partition a range, Lean 4, lemmas/L1.lean): monotone boundaries from 0 to n cover every input partition exactly once")
+    run.trust("dask.dataframe.core._concat / split_evenly and dask.dataframe.methods.boundary_slice are given assumed contracts (cross-checked on every run)")
